@@ -19,7 +19,7 @@ fn delivery(sym: &str, rng: &mut Rng) -> RespSpec {
                 RespSpec::Timeout
             }
         }
-        "status" => RespSpec::Reply(ReplySpec::status(*rng.pick(&[400u16, 404, 500, 503]))),
+        "status" => RespSpec::Reply(ReplySpec { body: if rng.bool() { BodySpec::Ack { daystart: None, cohort: [None, None, None] } } else { BodySpec::Raw(vec![]) }, ..ReplySpec::status(*rng.pick(&[400u16, 404, 500, 503, 302, 304, 307, 102])) }),
         "status+ra" => RespSpec::Reply(ReplySpec::status(*rng.pick(&[429u16, 503])).with_retry_after(b"77")),
         _ => RespSpec::Reply(
             ReplySpec::ok(BodySpec::Ack { daystart: None, cohort: [None, None, None] })
